@@ -1396,7 +1396,7 @@ func (fr *Frame) deterministicLibResults(fn *ssa.Function, args []Term, argVals 
 			res = append(res, r)
 			continue
 		}
-		name := quoteSym(fmt.Sprintf("lib:%s/%s#%d", fn.String(), sig, i))
+		name := libFnSymbol(fn.String(), sig, i)
 		u.declareFun(name, sorts, rs)
 		var r Term
 		if len(ts) == 0 {
@@ -1460,7 +1460,7 @@ func (fr *Frame) varargElems(v ssa.Value) ([]Term, []string, bool) {
 				return nil, nil, false
 			}
 			out[k], found[k] = t, true
-			tys[k] = val.Type().String()
+			tys[k] = dynTypeTag(val.Type())
 		}
 	}
 	for _, f := range found {
@@ -1557,4 +1557,19 @@ func (fr *Frame) checkCallSiteAsserts(c *ssa.CallCommon, args []Term, preFn Term
 			}
 		}
 	}
+}
+
+func libFnSymbol(fn string, sig string, result int) string {
+	return quoteSym(fmt.Sprintf("lib:%s/%s#%d", fn, sig, result))
+}
+
+// dynTypeTag: what a formatting / joining library function can observe of the dynamic type of a variadic argument:
+// for a type without methods only its underlying basic kind matters, otherwise the type itself.
+func dynTypeTag(t types.Type) string {
+	if b, ok := t.Underlying().(*types.Basic); ok {
+		if ms := types.NewMethodSet(t); ms.Len() == 0 {
+			return b.Name()
+		}
+	}
+	return t.String()
 }
